@@ -464,6 +464,16 @@ impl Compiler {
         let continue_target = self.builder.current_offset();
         self.set_continue_target(continue_target);
 
+        // The body may have modified the loop variables: copy the current scope
+        // values back to the registers that seed the next iteration.
+        for (name, reg) in &var_regs {
+            let name_idx = self.builder.add_string(name.cheap_clone())?;
+            self.builder.emit(Op::GetVar {
+                dst: *reg,
+                name: name_idx,
+            });
+        }
+
         // Compile update with special handling for loop variables:
         // Instead of modifying the scope's bindings (which closures captured),
         // we evaluate the update and store results to registers for the next iteration.
@@ -478,16 +488,6 @@ impl Compiler {
 
             // Disable redirection
             self.clear_loop_var_redirects();
-        } else {
-            // No update expression, but body may have modified loop variables.
-            // Copy current scope values back to registers for next iteration.
-            for (name, reg) in &var_regs {
-                let name_idx = self.builder.add_string(name.cheap_clone())?;
-                self.builder.emit(Op::GetVar {
-                    dst: *reg,
-                    name: name_idx,
-                });
-            }
         }
 
         // Pop per-iteration scope
